@@ -20,7 +20,7 @@ pub static C13: C13Prop = C13Prop;
 /// step budget of one Louvain call: >= 100x the largest count seen on terminating calls (recorded in the evidence)
 pub fn louvain_budget(n: usize, m: usize) -> u64 {
     let s = (n + m) as u64;
-    300_000 + 30_000 * s
+    300_000 + 300_000 * s
 }
 
 pub type Level = BTreeSet<BTreeSet<String>>;
@@ -45,6 +45,9 @@ pub fn args_of(case: &Case, snap: &Snap) -> LouvainArgs {
 
 /// structural description of the graph for signatures (known findings are identified by it)
 pub fn graph_class(snap: &Snap) -> String {
+    if snap.n() > 400 {
+        return format!("{}{} large", if snap.directed { "directed" } else { "undirected" }, if snap.multi { "+multi" } else { "" });
+    }
     let reach = crate::oracle::reach::Reach::new(snap);
     let cyc = if snap.directed {
         let big = reach.strong().iter().map(|c| c.len()).max().unwrap_or(0);
@@ -83,6 +86,7 @@ impl Prop for C13Prop {
             keyings: 1,
             boundary_per_mille: 0,
             huge_one_in: 800,
+            hub_one_in: 0,
         }
         .gen("C13", seed, idx);
         if idx % 40 == 39 {
@@ -93,6 +97,36 @@ impl Prop for C13Prop {
             case.specs = specs;
             case.ops = ops;
         }
+        let mut sr = Rng::new(seed, "config.special");
+        let mut force_weighted = false;
+        match sr.below(600) {
+            0..=9 => {
+                // regular graphs with more than a thousand edges (every node order gives the same degree profile)
+                let (d, _, l) = crate::gen::kind_from(idx as usize % 8);
+                let mut wr = Rng::new(seed, "workload.regular");
+                let regime = *wr.pick(&[WeightRegime::AllNan, WeightRegime::AllNan, WeightRegime::SmallInt]);
+                let (specs, ops) = crate::gen::gen_graph(&mut wr, &crate::gen::GraphOpts { directed: d, multi: false, self_loops: l, n_min: 128, n_max: 220, regime, shape: Some(Shape::Circulant), sprinkle: false });
+                case.specs = specs;
+                case.ops = ops;
+                case.params.put("source", J::s("regular graph with more than 1000 edges"));
+            }
+            10 => {
+                // a long chain whose weights grow slowly: local moving needs more than a thousand sweeps
+                let (d, _, _) = crate::gen::kind_from(idx as usize % 8);
+                let n = sr.range(800, 1200);
+                let specs = Specs::kind(d, false, false);
+                let names: Vec<String> = (0..n).map(|i| format!("c{:04}", i)).collect();
+                let mut ops = vec![Op::AddNodes(names.iter().map(|s| (s.clone(), None)).collect())];
+                for i in 1..n {
+                    ops.push(Op::AddEdge(E { u: names[i - 1].clone(), v: names[i].clone(), w: wbits(1.0 + 0.01 * i as f64), attr: None }));
+                }
+                case.specs = specs;
+                case.ops = ops;
+                force_weighted = true;
+                case.params.put("source", J::s("long chain with slowly growing weights"));
+            }
+            _ => {}
+        }
         let mut rng = Rng::new(seed, "c13.args");
         case.params.put("louvain_seed", J::U(match rng.below(10) {
             0 => u64::MAX,
@@ -102,7 +136,8 @@ impl Prop for C13Prop {
         }));
         case.params.put("resolution", J::F(*rng.pick(&[1.0, 1.0, 0.5, 2.0, 0.25, 1.5, 0.1])));
         case.params.put("threshold", J::F(*rng.pick(&[0.0, 1e-7, 1e-7, 1e-3, 0.1, 1.0])));
-        case.params.put("weighted", J::Bool(rng.chance(1, 2)));
+        let wflag = rng.chance(1, 2);
+        case.params.put("weighted", J::Bool(wflag || force_weighted));
         let k = match tier {
             Tier::Quick => 4,
             Tier::Thorough => 8,
@@ -129,6 +164,13 @@ impl Prop for C13Prop {
         let budget = louvain_budget(n, snap.edges.len());
         let class = graph_class(snap);
         cx.count(&format!("class.{}", class));
+        if env.keying % 2 == 1 {
+            // what ran on this thread before: the same call on the same graph declared in another node order
+            if let Some(sib) = algo::sibling(case) {
+                let _ = rt::call("louvain_partitions(earlier graph)", budget, || louvain::louvain_partitions(&sib, a.weighted, Some(a.resolution), Some(a.threshold), Some(a.seed)).is_ok());
+                cx.count("probe.earlier_call_on_a_sibling_graph");
+            }
+        }
         let r = rt::call("louvain_partitions", budget, || louvain::louvain_partitions(g, a.weighted, Some(a.resolution), Some(a.threshold), Some(a.seed)));
         cx.max("max.louvain_steps", rt::last_steps());
         let levels = match r {
@@ -240,7 +282,7 @@ impl Prop for C13Prop {
     }
     fn cross(&self, _case: &Case, _results: &[EnvResult], _cx: &mut Ctx) {}
     fn rule(&self) -> String {
-        "graphs of all 8 kinds with >= 1 edge: paths, cycles, stars, cliques joined by bridges, bipartite, G(n,p), unions, grids, trees, nested SCCs (n <= 40) and lifecycle-built graphs (n <= 8), unweighted or positive weights; seeds, resolution in (0,2], threshold in {0,1e-7,1e-3,0.1,1}; each case under 4 (quick) / 8 (thorough) hash keyings; every louvain call runs under the step budget 3e5 + 3e4 (n+m) allocations (exceeding it = did not terminate). Oracle: Ok with >= 1 level, every level a partition into non-empty communities, each level a coarsening of the previous, on single-edge graphs the oracle's own modularity is non-decreasing from singletons along the levels, louvain_communities = last level (both in fresh threads with equal keying). distinct_nontrivial = distinct (graph, arguments) with >= 1 edge; one case in 800 is a dense graph (1-3 blocks, 60-300 nodes) with 2 100 - 12 500 stored edges under a pool of 2-16 workers (strategy thresholds); weights also 1 + k 2^-j, 1e-17-scale, and finite weights whose sums / products overflow (1e308, MAX/4: modularity then is not a number and only termination, partitions and nesting are judged); shape 'hub joined to 3-5 identical parts by spokes graded in steps of 2^-41..2^-35 or one ulp'".into()
+        "graphs of all 8 kinds with >= 1 edge: paths, cycles, stars, cliques joined by bridges, bipartite, G(n,p), unions, grids, trees, nested SCCs (n <= 40) and lifecycle-built graphs (n <= 8), unweighted or positive weights; seeds, resolution in (0,2], threshold in {0,1e-7,1e-3,0.1,1}; each case under 4 (quick) / 8 (thorough) hash keyings; every louvain call runs under the step budget 3e5 + 3e5 (n+m) allocations (exceeding it = did not terminate). Oracle: Ok with >= 1 level, every level a partition into non-empty communities, each level a coarsening of the previous, on single-edge graphs the oracle's own modularity is non-decreasing from singletons along the levels, louvain_communities = last level (both in fresh threads with equal keying). distinct_nontrivial = distinct (graph, arguments) with >= 1 edge; one case in 800 is a dense graph (1-3 blocks, 60-300 nodes) with 2 100 - 12 500 stored edges under a pool of 2-16 workers (strategy thresholds); weights also 1 + k 2^-j, 1e-17-scale, and finite weights whose sums / products overflow (1e308, MAX/4: modularity then is not a number and only termination, partitions and nesting are judged); shape 'hub joined to 3-5 identical parts by spokes graded in steps of 2^-41..2^-35 or one ulp'; one case in 60 is a circulant (regular) graph of 128-220 nodes with up to 1 980 edges, one in 600 a chain of 800-1 200 nodes with slowly growing weights (more than a thousand local-moving sweeps); under odd keyings the same call runs first on the same graph declared in another node order (what ran on the thread before must not matter); budget 3e5 + 3e5 (n+m)".into()
     }
     fn assumptions(&self) -> Vec<String> {
         vec!["termination is decided by a step budget (allocations); max.louvain_steps in coverage.fired vs the budget shows the margin".into(), "modularity monotonicity is checked with the harness's own Newman formula, at 1e-9".into()]
